@@ -226,4 +226,11 @@ def r3(ctx):
     ctx.check(ok, "C16.R3", "constraint strings are lexed with the shared tokenizer", gt.where, ctx.construct(gt, text="tokens"), "get_tokens changed")
 
 
-RULES = [("C16.R1", r1), ("C16.R2", r2), ("C16.R3", r3)]
+
+def r4(ctx):
+    """the constraint grammar is parsed by the shared shunting-yard: its pop condition consumes the table of R1 (= C01.R9)."""
+    from .shared import relabel
+    relabel(ctx, "C16.R4", c01.r9)
+
+
+RULES = [("C16.R1", r1), ("C16.R2", r2), ("C16.R3", r3), ("C16.R4", r4)]
